@@ -150,7 +150,7 @@ def check_shape(part, normals, energies, case, key, scale_test=False):
             except Exception as e:
                 part.fail("container-raise:%s:%s" % (cname, key), "WulffConstruction with normals given as %s raised %r" % (cname, e), case)
     if scale_test:
-        for s in (0.5, 3.0):
+        for s in (0.5, 3.0, 1.0e3, 1.0e-3):   # the shape is scale free: absolute magnitudes of the energies must not matter
             part.tr()
             try:
                 w2 = WulffConstruction(np.array(normals), np.array(energies) * s)
